@@ -180,13 +180,13 @@ struct RegHarness : Harness {
     }
     std::vector<std::string> probes(const std::string &p) const override {
         if (p == "C01") return {"handle_eq_entries", "handle_beyond", "float_nan", "float_inf", "float_subnormal", "float_negative_zero", "type_mismatch_refused",
-                                "constraint_refused", "always_fail_refused", "set_accepted", "unsafe_bypasses_constraint", "callback_area_set", "get_undecodable_storage", "big_endian_table", "sanitise_left_through_error_path"};
+                                "constraint_refused", "always_fail_refused", "set_accepted", "unsafe_bypasses_constraint", "callback_area_set", "get_undecodable_storage", "big_endian_table", "sanitise_left_through_error_path", "first_init_failed_then_retried"};
         if (p == "C02") return {"write_inside_64bit_register", "partial_overlap_violates_constraint", "block_spans_two_areas", "block_into_readonly", "block_into_hole",
                                 "block_write_accepted", "block_decode_failure", "zero_length_write", "readonly_not_at_request_start"};
         if (p == "C03") return {"read_write_only_area_mid_area", "read_spans_two_areas", "read_into_hole", "zero_length_read", "iteration_starts_in_gap", "iteration_starts_mid_register",
-                                "iteration_stopped_by_callback", "iteration_negative_callback", "iteration_visits_several"};
+                                "iteration_stopped_by_callback", "iteration_negative_callback", "iteration_visits_several", "reinit_after_registers_removed"};
         if (p == "C04") return {"defect_no_areas", "defect_areas_swapped", "defect_area_overlap", "defect_regs_swapped", "defect_reg_overlap", "defect_reg_straddles_area_end",
-                                "defect_reg_in_hole", "defect_bad_default", "wellformed_accepted", "restart_over_surviving_callback_storage", "ops_report_uninitialised", "empty_area_between_populated", "reinit_of_initialised_table_rejected"};
+                                "defect_reg_in_hole", "defect_bad_default", "wellformed_accepted", "restart_over_surviving_callback_storage", "ops_report_uninitialised", "empty_area_between_populated", "reinit_of_initialised_table_rejected", "reinit_after_registers_removed"};
         return {"invariant_checked_ops", "refused_op_left_storage_unchanged", "bit_set_exact", "bit_clear_exact", "bit_op_refused_signed_or_float", "sanitise_reset_some_kept_some",
                 "corrupt_then_sanitise", "block_write_refused_by_constraint", "sanitise_left_through_error_path"};
     }
@@ -405,6 +405,8 @@ struct RegHarness : Harness {
             o["cbfail"] = (long long)(r.chance(1, 2) ? -1 : (int64_t)r.below(6));   // an I/O error at the k-th callback-area access of the call, or none
         } else if (k == "redefect") {
             o["d"] = (long long)r.below(9); o["salt"] = (long long)r.below(1 << 20);
+        } else if (k == "reedit") {
+            o["salt"] = (long long)r.below(1 << 20);
         } else if (k == "foreach") {
             uint32_t addr = (uint32_t)r.range(0, hi);
             if (nr && r.chance(1, 2)) { const RegSpec &g = t.regs[r.below(nr)]; int64_t a = (int64_t)g.addr + r.range(-2, (int64_t)wsize(g.type)); if (a < 0) a = 0; addr = (uint32_t)a; }
@@ -438,8 +440,8 @@ struct RegHarness : Harness {
         std::vector<std::string> kinds;
         if (prop == "C01") kinds = {"set", "set", "set", "set", "set_unsafe", "get", "get", "default", "corrupt", "sanitise_any"};
         else if (prop == "C02") kinds = {"bw", "bw", "bw", "bw", "corrupt", "touchcheck"};
-        else if (prop == "C03") kinds = {"br", "br", "foreach", "foreach", "corrupt"};
-        else if (prop == "C04") kinds = {"corrupt", "restart", "probe_ops", "poststate", "redefect"};
+        else if (prop == "C03") kinds = {"br", "br", "br", "foreach", "foreach", "foreach", "corrupt", "corrupt", "reedit"};
+        else if (prop == "C04") kinds = {"corrupt", "restart", "probe_ops", "poststate", "redefect", "reedit"};
         else kinds = {"set", "set", "set", "bit_set", "bit_clear", "bw", "bw", "sanitise", "sanitise_any", "corrupt"};
         if (prop == "C04") {
             // perturb the description by at most one defect
@@ -447,6 +449,7 @@ struct RegHarness : Harness {
             p["defect"] = defect;
             apply_defect(ts, defect, r);
         }
+        if (prop != "C04" && r.chance(1, 5)) p["init_fault"] = (long long)r.below(8);
         p["table"] = spec_json(ts);
         Json ops = Json::arr();
         if (!ts.areas.empty()) {
@@ -465,7 +468,19 @@ struct RegHarness : Harness {
         S.build(true);
         // ---- initialisation
         std::vector<std::vector<uint16_t>> cb_before = S.cbstore;
-        RegisterInit ri = register_init(&S.tbl);
+        RegisterInit ri;
+        if (P != "C04" && plan.geti("init_fault", -1) >= 0) {
+            // history: the first initialisation hits a transient I/O error behind a callback area (while a default is loaded)
+            // and fails; the application simply initialises again. Nothing is re-configured in between.
+            S.cb_fail_in = plan.geti("init_fault", -1);
+            RegisterInit first = register_init(&S.tbl);
+            bool fired = S.cb_fail_in < 0 || first.code != REG_INIT_SUCCESS;
+            S.cb_fail_in = -1;
+            c.ev(EV_API, 99, (uint64_t)first.code, first.pos.address); c.execs++;
+            if (first.code != REG_INIT_SUCCESS && fired) COUNT("probe.first_init_failed_then_retried");
+            cb_before = S.cbstore;
+        }
+        ri = register_init(&S.tbl);
         c.ev(EV_API, 100, (uint64_t)ri.code, ri.pos.address);
         c.execs++;
         if (P == "C04") c.ops_done++;
@@ -698,6 +713,27 @@ struct RegHarness : Harness {
             S.cb_fail_in = -1;
             c.ev(EV_API, 9, (uint64_t)a.code, a.address); c.execs++;
             if (a.code != REG_ACCESS_SUCCESS) COUNT("probe.sanitise_left_through_error_path");
+            S.sync_model_from_actual();
+            return;
+        }
+        if (op == "reedit" && (P == "C04" || P == "C03")) {
+            // a well-formed edit of an initialised table (registers removed, e.g. an area loses all of them), then register_init again
+            Rng r2((uint64_t)o.geti("salt") * 0x9e3779b97f4a7c15ULL + 5);
+            TableSpec edited = S.spec;
+            if (edited.regs.empty()) return;
+            if (r2.chance(1, 2)) { int ai = edited.area_of_reg(edited.regs[r2.below(edited.regs.size())]); std::vector<RegSpec> keep; for (auto &g : edited.regs) if (edited.area_of_reg(g) != ai) keep.push_back(g); edited.regs = keep; }
+            else edited.regs.erase(edited.regs.begin() + (long)r2.below(edited.regs.size()));
+            // the library's arrays are edited in place: same table object, same area array (its recorded register runs stay as they were)
+            std::vector<RegisterArea> old_areas(S.areas, S.areas + S.spec.areas.size());
+            S.spec = edited;
+            S.build(false, true);
+            for (size_t i = 0; i < S.spec.areas.size() && i < old_areas.size(); ++i) S.areas[i].entry = old_areas[i].entry;
+            std::vector<std::vector<uint16_t>> cb_before = S.cbstore;
+            RegisterInit ri = register_init(&S.tbl);
+            c.ev(EV_API, 103, (uint64_t)ri.code, ri.pos.address); c.execs++;
+            COUNT("probe.reinit_after_registers_removed");
+            if (P == "C04") { c.ops_done++; check_init(S, ri, ref_init(S.spec), cb_before, "reedit"); if (!c.viol.empty()) return; }
+            if (ri.code != REG_INIT_SUCCESS) { S.inited = false; return; }
             S.sync_model_from_actual();
             return;
         }
